@@ -339,6 +339,13 @@ def sample_args(c, registry, rng):
     for gk, gv in joint.items():
         if gk.startswith('ghost_'):
             out[gk] = gv
+    try:
+        return _sample_rest(c, registry, rng, sig, cc, joint, out)
+    except CannotLower:
+        return None          # arguments that are external objects: no native sampler
+
+
+def _sample_rest(c, registry, rng, sig, cc, joint, out):
     for pname, p in sig.parameters.items():
         if pname in joint:
             out[pname] = joint[pname]
